@@ -666,6 +666,83 @@ pub fn check_sess(ctx: &Ctx, s: &Sess, info: &mut CaseInfo) -> Outcome {
     Outcome::Ok
 }
 
+// ---------------------------------------------------------------------------------------------
+// lock-free text scans: completion context on documents in the middle of being typed
+// ---------------------------------------------------------------------------------------------
+
+/// A complete `usefixtures(...)` / `parametrize(...)` decorator `gap` lines above a line that is
+/// still being typed; the completion context is asked for every line. These scans take no lock, so
+/// no step bound sees them: a call that does not come back within 20 s (they take microseconds) is
+/// reported as INCONCLUSIVE - a wall-clock expiry is never a violation in this framework.
+#[derive(Clone, Debug, Serialize, Deserialize)]
+pub struct TextScan {
+    pub gap: u8,
+    pub head: u8,
+    pub tail: u8,
+}
+
+pub fn text_scan() -> impl Strategy<Value = TextScan> {
+    (0u8..16, 0u8..4, 0u8..4).prop_map(|(gap, head, tail)| TextScan { gap, head, tail })
+}
+
+static TEXT_SCAN_EXPIRED: std::sync::atomic::AtomicBool = std::sync::atomic::AtomicBool::new(false);
+
+pub fn check_text_scan(ctx: &Ctx, c: &TextScan, info: &mut CaseInfo) -> Outcome {
+    if TEXT_SCAN_EXPIRED.load(std::sync::atomic::Ordering::SeqCst) {
+        return Outcome::Ok; // one expiry makes the run inconclusive already; do not pile up spinning threads
+    }
+    let mut text = String::from("import pytest\n");
+    for i in 0..c.head {
+        text.push_str(&format!("X{} = {}\n", i, i));
+    }
+    text.push_str("@pytest.mark.usefixtures(\"shared_a\")\n");
+    if c.gap > 0 {
+        text.push_str("@pytest.mark.parametrize(\n    \"v\",\n    [\n");
+        for i in 0..c.gap.saturating_sub(1) {
+            text.push_str(&format!("        {},\n", i));
+        }
+        text.push_str("    ],\n)\n");
+    }
+    text.push_str(match c.tail % 4 {
+        0 => "def test_typing(a, ",
+        1 => "def test_typing(",
+        2 => "@pytest.mark.usefixtures(",
+        _ => "def test_done(shared_a):\n    shared_",
+    });
+    let path = PathBuf::from("/vw/s/a/test_typing.py");
+    let lines = text.lines().count() as u32;
+    let (tx, rx) = std::sync::mpsc::channel();
+    let t2 = text.clone();
+    std::thread::spawn(move || {
+        let db = FixtureDatabase::new();
+        db.analyze_file(PathBuf::from("/vw/s/conftest.py"), "import pytest\n\n@pytest.fixture\ndef shared_a():\n    return 1\n");
+        db.analyze_file(path.clone(), &t2);
+        let mut n = 0u64;
+        for l in 0..lines + 1 {
+            for col in [0u32, 4, 17, 200] {
+                let _ = db.get_completion_context(&path, l, col);
+                n += 1;
+            }
+        }
+        let _ = tx.send(n);
+    });
+    match rx.recv_timeout(std::time::Duration::from_secs(20)) {
+        Ok(n) => {
+            info.checks += n;
+            info.nontrivial = true;
+            Outcome::Ok
+        }
+        Err(_) => {
+            if TEXT_SCAN_EXPIRED.swap(true, std::sync::atomic::Ordering::SeqCst) {
+                return Outcome::Ok;
+            }
+            ctx.inconclusive.fetch_add(1, std::sync::atomic::Ordering::SeqCst);
+            ctx.note(format!("get_completion_context did not return within 20 s on a {}-line document (decorator {} lines above the line being typed):\n{}", lines, c.gap, text));
+            Outcome::Ok
+        }
+    }
+}
+
 pub fn run(ctx: &Ctx) {
     ctx.run_prop_shrink("workloads", ctx.tier.pick(3000, 100_000), 1, 600, || (vec(wop_with_flood(), 4..=14), any::<bool>(), prop_oneof![3 => Just(0u8), 1 => Just(1u8), 2 => Just(2u8)]).prop_map(|(ops, collide, disk)| Workload { ops, collide, disk }), |w, info| check_workload(w, info));
     let failed = |ctx: &Ctx| !ctx.violations.lock().unwrap().is_empty();
@@ -674,6 +751,9 @@ pub fn run(ctx: &Ctx) {
     }
     if !failed(ctx) {
         ctx.run_prop_shrink("cyclic", ctx.tier.pick(120, 3000), 1, 100, cyclic, |c, info| check_cyclic(c, info));
+    }
+    if !failed(ctx) {
+        ctx.run_prop_shrink("text-scans", ctx.tier.pick(100, 2000), 4, 50, text_scan, |c, info| check_text_scan(ctx, c, info));
     }
     if failed(ctx) {
         ctx.note("later sub-checks skipped after the first violation");
@@ -702,6 +782,7 @@ pub fn judge(ctx: &Ctx, sub: &str, case: &Value) -> Option<Outcome> {
         "schedules" => Some(check_conc(&from_case::<Conc>(case)?, &mut info)),
         "cyclic" => Some(check_cyclic(&from_case::<Cyclic>(case)?, &mut info)),
         "server" => Some(check_sess(ctx, &from_case::<Sess>(case)?, &mut info)),
+        "text-scans" => Some(check_text_scan(ctx, &from_case::<TextScan>(case)?, &mut info)),
         _ => None,
     }
 }
